@@ -1189,7 +1189,12 @@ var stopStartScripts = func() (l []string) {
 	return l
 }()
 
+// (the last two: a one-frame commit restarts the fully checkpointed WAL between the capture of the
+// snapshot position and the reader's open of the WAL — Db/MachineSnap.v snapshot_restart_between_refuted,
+// F19, fixed in /repo)
 var snapAfterReopenScripts = []string{
+	"OPEN S W W SW REOPEN ACK-PASSIVE OPEN S INJP=snap.owner SNAP S SW ORACLE",
+	"OPEN S W W SW REOPEN ACK-FULL OPEN S INJP=snap.owner SNAP W SW ORACLE",
 	"OPEN S W SW REOPEN OPEN S W SNAP ORACLE W S SW ORACLE",
 	"OPEN S W SW REOPEN W OPEN SNAP ORACLE S SW ORACLE",
 	"OPEN S W SW W REOPEN OPEN W W SNAP ORACLE SW SNAP ORACLE",
